@@ -565,4 +565,61 @@ def setCase (thr : Nat) (hosts pats : List Bytes) (rhost path esc : Bytes) : Hos
   | .dup => .dup
   | .res b => .res (b && pathCase pats path esc)
 
+/-! ### Caddyfile glue (caddyconfig/httpcaddyfile): a site block `<key> { respond <matcher> "hit" }`
+
+`ParseAddress` + `Address.Normalize` turn the site key into a host and a path;
+`compileEncodedMatcherSets` makes them the site's `host` / `path` matchers;
+`matcherSetFromMatcherToken` turns the directive's matcher token into a matcher set
+(`*` = none, `/…` = `path [tok]`, `@name` = the named set, whose `host …` / `path …` lines
+simply collect their arguments).  A request reaches the handler iff the site's set and the
+directive's set both match. -/
+
+def httpScheme : Bytes := [104, 116, 116, 112, 58, 47, 47]   -- "http://"
+
+def dropScheme (key : Bytes) : Bytes :=
+  if hasPrefix key httpScheme then key.drop httpScheme.length else key
+
+/-- `host, port, err := net.SplitHostPort(s)`, on error retried with `s + ":"`, else `s` itself -/
+def addrHost (hostport : Bytes) : Bytes :=
+  match splitHostPort hostport with
+  | some h => h
+  | none =>
+    match splitHostPort (hostport ++ [cColon]) with
+    | some h => h
+    | none => hostport
+
+/-- `ParseAddress(key).Normalize()`: (Host, Path) -/
+def parseSiteKey (key : Bytes) : Bytes × Bytes :=
+  (lower (addrHost ((dropScheme key).takeWhile (· != cSlash))), (dropScheme key).dropWhile (· != cSlash))
+
+inductive TokMode where
+  | none      -- `respond "hit"`
+  | star      -- `respond * "hit"`
+  | implicit  -- `respond /path "hit"`
+  | named     -- `@m { host …; path … }` + `respond @m "hit"`
+deriving DecidableEq, Repr
+
+def resAnd : HostRes → HostRes → HostRes
+  | .dup, _ => .dup
+  | _, .dup => .dup
+  | .res a, .res b => .res (a && b)
+
+/-- the matcher set of the directive -/
+def tokCase (thr : Nat) (mode : TokMode) (hosts pats : List Bytes) (rhost path esc : Bytes) : HostRes :=
+  match mode with
+  | .none => .res true
+  | .star => .res true
+  | .implicit => .res (pathCase pats path esc)
+  | .named =>
+    resAnd (if hosts.isEmpty then .res true else hostCase thr hosts rhost)
+           (.res (pats.isEmpty || pathCase pats path esc))
+
+/-- adapt + provision + serve: does the request reach the handler of the site block? -/
+def siteCase (thr : Nat) (key : Bytes) (mode : TokMode) (hosts pats : List Bytes)
+    (rhost path esc : Bytes) : HostRes :=
+  resAnd
+    (resAnd (if (parseSiteKey key).1.isEmpty then .res true else hostCase thr [(parseSiteKey key).1] rhost)
+            (.res ((parseSiteKey key).2.isEmpty || pathCase [(parseSiteKey key).2] path esc)))
+    (tokCase thr mode hosts pats rhost path esc)
+
 end CaddyModel.C06
